@@ -31,6 +31,7 @@ func (e *emitter) line(label, typ, preset, cfg string, b []byte) {
 	}
 	e.o.Stats.Add("label", label)
 	e.o.Stats.Add("preset", preset)
+	label += "@" + preset
 	sz := "0"
 	switch n := len(b); {
 	case n == 0:
@@ -286,9 +287,10 @@ func gen(o hreg.Opts, w *bufio.Writer) error {
 				vals = append(vals, gv{label, g.gen(t)})
 			}
 			if heavy {
-				// megabytes per value: the quick tier takes a seed-dependent third of the heavy (type, preset) pairs
+				// megabytes per value: the quick tier takes a third of the heavy (type, preset) pairs per seed,
 				heavyIdx++
-				if o.Thorough() || (p.name == "mainnet" && heavyIdx%3 == int(o.Seed%3+3)%3) {
+				// rotating: pair number i is taken by the seeds congruent to i modulo 3, so seeds 1..3 hit every pair
+				if o.Thorough() || heavyIdx%3 == int(o.Seed%3+3)%3 {
 					mk("v-rand", gRand, budget)
 					if o.Thorough() {
 						mk("v-empty", gEmpty, 0)
@@ -335,8 +337,10 @@ func gen(o hreg.Opts, w *bufio.Writer) error {
 					em.line(m.label, e.Name, p.name, p.tok, m.b)
 				}
 			}
-			if heavy {
-				continue
+			// a list of variable-size elements whose first offset says "no elements" while the scope is not empty
+			if _, fixedElem := t.elemFixed(); t.Kind == KList && !fixedElem {
+				em.line("m-list-off0", e.Name, p.name, p.tok, []byte{0, 0, 0, 0})
+				em.line("m-list-off0", e.Name, p.name, p.tok, []byte{0, 0, 0, 0, 0xff})
 			}
 			// one over the limit, for up to a few of the lists inside the type
 			nl := countLists(t)
